@@ -348,6 +348,21 @@ def run(ctx):
         pw = [n for n in thir.find(thir.root(mk), "if") if isinstance(n["c"], dict) and n["c"].get("k") == "letx" and pathx.desc(n["c"]["e"]) == "args.events.poll"]
         okw = len(pw) == 1 and cc.get("file_watcher") == [["config", "Poll{0: interval.0}"]] and any(strip_generics(c).endswith("Config::file_watcher") for c, _ in thir.calls_in(pw[0]["t"])) \
             and "Some" in thir.pattern_variants(pw[0]["c"]["p"])
+        ea13 = facts.find_adt("watchexec_cli::args::events::EventsArgs")
+        pf = [f for f in (ea13["variants"][0]["fields"] if ea13 else []) if f["name"] == "poll"]
+        ctx.require(bool(pf) and pf[0]["ty"] == "core::option::Option<watchexec_cli::args::TimeSpan<1000000>>", "R13.10", "cli-poll-unit", "--poll's unit-less values are milliseconds", mk.loc(mk.line),
+                    detail=pf[0]["ty"] if pf else "", fail="--poll no longer reads unit-less values as milliseconds (%s): the poll watcher runs with an interval a thousand times the configured one" % (pf[0]["ty"] if pf else "missing"))
+        # the watch list is de-duplicated by whole value (path AND recursion mode): `-W dir -w dir` keeps the recursive entry
+        nm13 = [f for f in facts.fns_matching(r"^watchexec_cli::args::filtering::FilteringArgs::normalise") if f.kind == "coroutine"]
+        if nm13:
+            ctx.saw_fn(nm13[0])
+            fulls = [(t.callee.full or "") for g in [nm13[0]] + facts.descendants(nm13[0]) for _, t in g.calls()]
+            by_value = any("collect" in f_ and "BTreeSet<watchexec::watched_path::WatchedPath>" in f_ for f_ in fulls) or any("collect" in f_ and "HashSet<watchexec::watched_path::WatchedPath" in f_ for f_ in fulls)
+            partial = [f_[:80] for f_ in fulls if ("dedup_by" in f_ or "dedup_by_key" in f_) and "WatchedPath" in f_]
+            ctx.require(by_value and not partial, "R13.10", "cli-paths-dedup-by-value", "the CLI's watch list is de-duplicated on (path, recursion mode), not on the path alone", nm13[0].loc(nm13[0].line),
+                        detail=str(partial), fail="FilteringArgs::normalise drops watch entries that differ only in recursion mode (%s): a path given both recursively and non-recursively loses one of its registrations" % partial)
+        else:
+            ctx.violation("R13.10", "floor:anchor:normalise", "FilteringArgs::normalise coroutine not found")
         ctx.require(okw, "R13.10", "cli-poll-watcher", "--poll <interval> selects Watcher::Poll(interval), otherwise the default (native) watcher stays", mk.loc(mk.line), detail=str(cc.get("file_watcher")))
     except Skip:
         pass
